@@ -321,6 +321,18 @@ class Gen:
                              T(arr([ent(T(ref("T"))), ent(T(ref("tstr")), 0, 1)]))])
             self.generic_defs.append(trule(n, body, params=["T"]))
             return ref(n, [self.scalar_t1() if r.random() < 0.7 else ref("tstr")])
+        if x < 0.63 and self.can_ref():
+            # generic GROUP rule instantiated twice (different arguments) in one array
+            self.counter += 1
+            n = "gg%d" % self.counter
+            body = r.choice([sub([[ent(T(ref("T"))), ent(T(ref("T")))]]), sub([[ent(T(ref("T"))), ent(T(ref("tstr")), 0, 1)]]),
+                             sub([[ent(T(ref("T")), 1, 2)]]), sub([[ent(T(ref("T")))], [ent(T(ref("nil")))]])])
+            self.generic_defs.append(grule(n, body, params=["T"]))
+            a1, a2 = r.choice([(ref("int"), ref("tstr")), (ref("tstr"), ref("int")), (ref("bool"), self.scalar_t1()), (self.scalar_t1(), ref("tstr"))])
+            es = [name_ent(n, args=[a1]), name_ent(n, args=[a2], lo=r.choice([1, 1, 0]), hi=1)]
+            if r.random() < 0.3:
+                es.insert(1, ent(T(ref("nil")), 0, 1))
+            return arr(es)
         if x < 0.7:
             # socket: $s with 1-2 plugs
             self.counter += 1
@@ -513,10 +525,8 @@ class Inst:
             if ru is None:
                 return self.prim(t["n"])
             if ru["kind"] == "type":
-                alts = []
-                for x in self.rules:
-                    if x["name"] == t["n"] and x["kind"] == "type":
-                        alts += x["t"]["alts"]
+                import refactor
+                alts = refactor.inst_type(self.rules, t["n"], t["args"])["alts"]
                 return self.of_t1(r.choice(alts))
             return self.junk()
         if k == "paren":
@@ -575,7 +585,8 @@ class Inst:
             elif e["k"] == "name":
                 ru = self.rule(e["n"])
                 if ru is not None and ru["kind"] == "group":
-                    out += self.of_entry_seq(ru["e"])
+                    import refactor
+                    out += self.of_group_seq(refactor.inst_group(self.rules, e["n"], e["args"]))
                 else:
                     out.append(self.of_t1(ref(e["n"])))
         return out
@@ -613,8 +624,16 @@ class Inst:
                         continue
                     seen.add(ks)
                     pairs.append((kv, self.of_type(e["t"])))
-                elif e["k"] == "sub":
-                    for kv, vv in self.of_group_map(e["g"]):
+                elif e["k"] in ("sub", "name"):
+                    if e["k"] == "name":
+                        ru = self.rule(e["n"])
+                        if ru is None or ru["kind"] != "group":
+                            continue
+                        import refactor
+                        gg = refactor.inst_group(self.rules, e["n"], e["args"])
+                    else:
+                        gg = e["g"]
+                    for kv, vv in self.of_group_map(gg):
                         ks = json.dumps(kv, sort_keys=True)
                         if ks not in seen:
                             seen.add(ks)
